@@ -171,8 +171,16 @@ func (tt *TypeTable) TID(t types.Type) int {
 	return id
 }
 
+// opaqueLike: `opaque type A like B` - values of A are modelled by B's opaque sort (two named types
+// of identical underlying type that the code converts between by pointer conversion, e.g.
+// felt.SierraClassHash and felt.Felt: one heap, one sort).
+var opaqueLike = map[string]string{}
+
 func (tt *TypeTable) isOpaque(t types.Type) (Sort, bool) {
 	k := typeKey(t)
+	if b, ok := opaqueLike[k]; ok && tt.opaque[b] {
+		k = b
+	}
 	if tt.opaque[k] {
 		s := Sort("O!" + sanitize(k))
 		tt.opaqueS[string(s)] = true
